@@ -4166,11 +4166,15 @@ async fn handle_connected_state_no_dtls(
     ice_state_rx: &mut watch::Receiver<crate::transports::ice::IceTransportState>,
 ) -> bool {
     if let Some(inner) = inner_weak.upgrade() {
-        let pc_temp = PeerConnection {
-            inner: inner.clone(),
+        // For RTP/SRTP, we pass false as is_client, but it doesn't matter as start_dtls handles it.
+        // The temporary handle is dropped before the monitoring loop (see handle_connected_state).
+        let started = {
+            let pc_temp = PeerConnection {
+                inner: inner.clone(),
+            };
+            pc_temp.start_dtls(false).await
         };
-        // For RTP/SRTP, we pass false as is_client, but it doesn't matter as start_dtls handles it
-        match pc_temp.start_dtls(false).await {
+        match started {
             Err(e) => {
                 debug!("Transport start failed: {}", e);
                 let _ = inner.disconnect_reason.send_if_modified(|cur| {
@@ -4272,11 +4276,16 @@ async fn handle_connected_state(
         let role = *dtls_role_rx.borrow_and_update();
         if let Some(is_client) = role {
             if let Some(inner) = inner_weak.upgrade() {
-                let pc_temp = PeerConnection {
-                    inner: inner.clone(),
+                // The temporary handle must not outlive the start-up: while this task
+                // monitors the connection it may hold it only weakly, otherwise
+                // dropping the last application handle would never run Drop.
+                let started = {
+                    let pc_temp = PeerConnection {
+                        inner: inner.clone(),
+                    };
+                    pc_temp.start_dtls(is_client).await
                 };
-
-                match pc_temp.start_dtls(is_client).await {
+                match started {
                     Err(e) => {
                         debug!("DTLS start failed: {}", e);
                         let _ = inner.disconnect_reason.send_if_modified(|cur| {
@@ -4297,15 +4306,18 @@ async fn handle_connected_state(
                             let dtls_guard = inner.dtls_transport.lock();
                             (*dtls_guard).as_ref().map(|dtls| dtls.subscribe_state())
                         };
+                        let grace = inner.config.ice_disconnect_grace;
+                        drop(inner);
 
                         if let Some(mut dtls_rx) = dtls_state_rx {
-                            let grace = inner.config.ice_disconnect_grace;
                             let (grace_tx, mut grace_rx) = tokio::sync::mpsc::unbounded_channel::<u64>();
                             let mut disconnect_epoch: u64 = 0;
                             loop {
                                 tokio::select! {
                                     _ = &mut rtcp_loop => {
-                                        propagate_sctp_close_reason(&inner);
+                                        if let Some(inner) = inner_weak.upgrade() {
+                                            propagate_sctp_close_reason(&inner);
+                                        }
                                         break;
                                     }
                                     res = ice_state_rx.changed() => {
@@ -4314,6 +4326,7 @@ async fn handle_connected_state(
                                         if is_ice_failed_or_closed(new_state) {
                                             return true;
                                         }
+                                        let Some(inner) = inner_weak.upgrade() else { return false; };
                                         match new_state {
                                             crate::transports::ice::IceTransportState::Disconnected => {
                                                 let _ = inner.peer_state.send(PeerConnectionState::Disconnected);
@@ -4343,6 +4356,7 @@ async fn handle_connected_state(
                                         if res.is_ok() {
                                             let state = dtls_rx.borrow().clone();
                                             if state == crate::transports::dtls::DtlsState::Closed || state == crate::transports::dtls::DtlsState::Failed {
+                                                let Some(inner) = inner_weak.upgrade() else { return false; };
                                                 debug!("DTLS closed/failed, disconnecting PC");
                                                 let reason = if state == crate::transports::dtls::DtlsState::Failed {
                                                     DisconnectReason::DtlsFailed
@@ -4362,6 +4376,7 @@ async fn handle_connected_state(
                                     }
                                     Some(epoch) = grace_rx.recv() => {
                                         if epoch == disconnect_epoch {
+                                            let Some(inner) = inner_weak.upgrade() else { return false; };
                                             let _ = inner.disconnect_reason.send_if_modified(|cur| {
                                                 if cur.is_none() {
                                                     *cur = Some(DisconnectReason::IceDisconnected);
@@ -4382,13 +4397,14 @@ async fn handle_connected_state(
                                 }
                             }
                         } else {
-                            let grace = inner.config.ice_disconnect_grace;
                             let (grace_tx, mut grace_rx) = tokio::sync::mpsc::unbounded_channel::<u64>();
                             let mut disconnect_epoch: u64 = 0;
                             loop {
                                 tokio::select! {
                                     _ = &mut rtcp_loop => {
-                                        propagate_sctp_close_reason(&inner);
+                                        if let Some(inner) = inner_weak.upgrade() {
+                                            propagate_sctp_close_reason(&inner);
+                                        }
                                         break;
                                     }
                                     res = ice_state_rx.changed() => {
@@ -4397,6 +4413,7 @@ async fn handle_connected_state(
                                         if is_ice_failed_or_closed(new_state) {
                                             return true;
                                         }
+                                        let Some(inner) = inner_weak.upgrade() else { return false; };
                                         match new_state {
                                             crate::transports::ice::IceTransportState::Disconnected => {
                                                 let _ = inner.peer_state.send(PeerConnectionState::Disconnected);
@@ -4424,6 +4441,7 @@ async fn handle_connected_state(
                                     }
                                     Some(epoch) = grace_rx.recv() => {
                                         if epoch == disconnect_epoch {
+                                            let Some(inner) = inner_weak.upgrade() else { return false; };
                                             let _ = inner.disconnect_reason.send_if_modified(|cur| {
                                                 if cur.is_none() {
                                                     *cur = Some(DisconnectReason::IceDisconnected);
